@@ -208,3 +208,11 @@ package agent
 //@   loop "for start := 0; start <= FileSize; start += chunkSize"
 //@     invariant fixedid: ID == loopentry(ID)
 //@     invariant step: 0 <= start && start % DEMON_MAX_RESPONSE_LENGTH == 0 && FileSize == len(FileData)
+
+// The relay reader goroutine of the SOCKS handler (free variable: the agent cell).
+// C15: bytes read from the client are queued as one SOCKET_COMMAND_WRITE task
+// carrying the same socket id and exactly the slice that was read.
+//@ func (a *Agent) TaskPrepare$1$1(SocketId int, a **Agent)
+//@   requires ctx: *a != nil && !held((*a).SocksCliMtx)
+//@   modifies *
+//@   guard-call relay: "AddJobToQueue" job.Command == COMMAND_SOCKET && typeis(job.Data[0], int) && ((len(job.Data) == 3 && unboxed(job.Data[0], int) == SOCKET_COMMAND_WRITE && typeis(job.Data[1], int32) && unboxed(job.Data[1], int32) == client.SocketID && typeis(job.Data[2], []byte) && sameslice(unboxed(job.Data[2], []byte), Data)) || (len(job.Data) == 2 && unboxed(job.Data[0], int) == SOCKET_COMMAND_CLOSE && typeis(job.Data[1], int32) && unboxed(job.Data[1], int32) == int32(SocketId)))
